@@ -3,6 +3,8 @@
 package protocol
 
 import (
+	"net"
+
 	"github.com/enfein/mieru/v3/pkg/appctl/appctlpb"
 	"github.com/enfein/mieru/v3/pkg/common"
 )
@@ -35,3 +37,10 @@ const (
 	VerifC16DataClientToServerLowEntropy = int(dataClientToServerLowEntropy)
 	VerifC16DataServerToClientLowEntropy = int(dataServerToClientLowEntropy)
 )
+
+// VerifC16WriteWithPossibleFragment runs StreamUnderlay.writeWithPossibleFragment on a bare client
+// stream underlay whose connection is conn and whose traffic pattern is tp.
+func VerifC16WriteWithPossibleFragment(conn net.Conn, tp *appctlpb.TrafficPattern, data []byte) error {
+	t := &StreamUnderlay{baseUnderlay: *newBaseUnderlay(true, 1500, tp), conn: conn}
+	return t.writeWithPossibleFragment(data)
+}
